@@ -12,7 +12,9 @@ def build(ctx):
 
 
 def bounded(ctx):
-    common.suites(ctx, ['cedge', 'mix', 'pseudo', 'li', 'dist'], {'eligible', 'modes'})
+    common.suites(ctx, ['cedge', 'mix', 'pseudo', 'li', 'dist', 'rand'], {'eligible', 'modes'})
+    ctx.task('bounded.tasks:split_task', 'cedge')
+    ctx.task('bounded.tasks:split_task', 'rand')
 
 
 def explanation(ctx):
